@@ -77,3 +77,52 @@ fn tree_n30_t4() { tree::<30>(4); }
 #[kani::proof]
 #[kani::unwind(32)]
 fn tree_n30_t16() { tree::<30>(16); }
+
+/// the recursive split with a NON-ZERO offset (what happens from merge depth 3 on, i.e. >= 70 input files with
+/// >= 8 threads): `parallel_append` called directly on 4 samples that are samples 2..6 of a 6-sample build
+#[kani::proof]
+#[kani::unwind(8)]
+fn parallel_append_depth2_offset2() {
+    const N: usize = 4;
+    const OFF: usize = 2;
+    const TOTAL: usize = 6;
+    let rc: bool = kani::any();
+    let mut key = [0u64; N];
+    let mut base = [0u8; N];
+    let mut files: Vec<InputFastx> = Vec::with_capacity(N);
+    let mut i = 0;
+    while i < N {
+        let second: bool = kani::any();
+        key[i] = if second { 20 } else { 10 };
+        base[i] = any_acgt();
+        provide_entry(OFF + i, key[i], base[i]); // SkaDict::new receives the sample index offset + i
+        files.push((NAMES[OFF + i].to_string(), "f".to_string(), None));
+        i += 1;
+    }
+    dict_provider(true);
+    let qual = QualOpts { min_count: 1, min_qual: 0, qual_filter: QualFilter::NoFilter };
+    let d = parallel_append::<u64>(2, OFF, &files, TOTAL, 7, rc, &qual, None);
+    assert!(d.nsamples() == TOTAL, "table sized for the whole build");
+    let mut i = 0;
+    while i < N { assert!(d.names[OFF + i].as_bytes() == NAMES[OFF + i].as_bytes(), "each sample's name at its own index"); i += 1; }
+    let mut kk = 0;
+    while kk < 2 {
+        let kv = if kk == 0 { 10u64 } else { 20u64 };
+        let mut any_s = false;
+        let mut i = 0;
+        while i < N { if key[i] == kv { any_s = true; } i += 1; }
+        if any_s {
+            let v = d.split_kmers.get(&kv).unwrap();
+            assert!(v.len() == TOTAL, "one slot per sample of the whole build");
+            let mut j = 0;
+            while j < TOTAL {
+                let exp = if j >= OFF && j < OFF + N && key[j - OFF] == kv { base[j - OFF] } else { 0 };
+                assert!(v[j] == exp, "each sample's base in its own column, whatever the split");
+                j += 1;
+            }
+        } else { assert!(!d.split_kmers.contains_key(&kv), "no entry for a k-mer of no sample"); }
+        kk += 1;
+    }
+    kani::cover!(key[0] != key[3], "first and last sample of the slice differ");
+    std::mem::forget(d); std::mem::forget(files);
+}
